@@ -9,6 +9,8 @@
    create_proof sends nothing except the Get of its internal read of a block that is not held.
    Partial by nature: that every subscriber receives the same sequence is a property of async_broadcast
    (capacity 32), covered by tools/c13.py with 1-3 subscribers and < 32 undrained events. *)
+From HC Require FaultReplicaEx.
+From HC Require Import FaultReplica.
 From HC Require AnyProofCorEx.
 From HC Require Import AnyProofLib AnyProof AnyProofCorLib AnyProofCor.
 From HC Require SrcOrder OrderTie.
@@ -267,6 +269,54 @@ Theorem C13_any_history_avail :
          Sound.some_collision cr \/ forged_signature cr bs (kp_public (c_keypair c)).
 Proof. exact any_history_avail. Qed.
 
+Theorem C13_failed_call_emits_nothing :
+  forall (cr : crypto) (limit : nat),
+         (forall (f : option bool) (batch : list bytes) (c : core) (w : world) (c' : core) 
+            (w' : world) (r : res (N * N)),
+          CrashClear4.core_append_E cr (CrashClear4.emit_lim limit) f batch c w = (c', w', r) ->
+          is_ok r = false -> w_events w' = w_events w) /\
+         (forall (f : option bool) (s e : N) (c : core) (w : world) (c' : core) (w' : world) (r : res unit),
+          CrashClear4.core_clear_E cr (CrashClear4.emit_lim limit) f s e c w = (c', w', r) ->
+          w_events w' = w_events w) /\
+         (forall (f : option bool) (pf : proof) (c : core) (w : world) (c' : core) (w' : world) (r : res bool),
+          core_apply_proof_E cr (CrashClear4.emit_lim limit) f pf c w = (c', w', r) ->
+          is_ok r = false -> w_events w' = w_events w) /\
+         (forall (c : core) (w : world) (c' : core) (w' : world) (r : res bool),
+          core_make_read_only_E cr (CrashClear4.emit_lim limit) c w = (c', w', r) -> w_events w' = w_events w).
+Proof. exact failed_call_emits_nothing. Qed.
+
+Theorem C13_beyond_end_same_events :
+  forall cr : crypto,
+         (forall (f : option bool) (batch : list bytes) (k : nat) (c : core) (d : disk) 
+            (j : list sop) (ev : list event) (c' : core) (w' : world) (x : N * N) (delta : list sop),
+          core_append cr f batch c {| w_disk := d; w_journal := j; w_events := ev |} = (c', w', Ok x) ->
+          w_journal w' = rev delta ++ j ->
+          (Datatypes.length delta <= k)%nat ->
+          CrashClear4.core_append_E cr (CrashClear4.emit_lim (Datatypes.length j + k)) f batch c
+            {| w_disk := d; w_journal := j; w_events := ev |} = (c', w', Ok x)) /\
+         (forall (f : option bool) (s e : N) (k : nat) (c : core) (d : disk) (j : list sop) 
+            (ev : list event) (c' : core) (w' : world) (x : unit) (delta : list sop),
+          core_clear cr f s e c {| w_disk := d; w_journal := j; w_events := ev |} = (c', w', Ok x) ->
+          w_journal w' = rev delta ++ j ->
+          (Datatypes.length delta <= k)%nat ->
+          CrashClear4.core_clear_E cr (CrashClear4.emit_lim (Datatypes.length j + k)) f s e c
+            {| w_disk := d; w_journal := j; w_events := ev |} = (c', w', Ok x)) /\
+         (forall (f : option bool) (pf : proof) (k : nat) (c : core) (d : disk) (j : list sop)
+            (ev : list event) (c' : core) (w' : world) (x : bool) (delta : list sop),
+          core_apply_proof cr f pf c {| w_disk := d; w_journal := j; w_events := ev |} = (c', w', Ok x) ->
+          w_journal w' = rev delta ++ j ->
+          (Datatypes.length delta <= k)%nat ->
+          core_apply_proof_E cr (CrashClear4.emit_lim (Datatypes.length j + k)) f pf c
+            {| w_disk := d; w_journal := j; w_events := ev |} = (c', w', Ok x)) /\
+         (forall (k : nat) (c : core) (d : disk) (j : list sop) (ev : list event) (c' : core) 
+            (w' : world) (x : bool) (delta : list sop),
+          core_make_read_only cr c {| w_disk := d; w_journal := j; w_events := ev |} = (c', w', Ok x) ->
+          w_journal w' = rev delta ++ j ->
+          (Datatypes.length delta <= k)%nat ->
+          core_make_read_only_E cr (CrashClear4.emit_lim (Datatypes.length j + k)) c
+            {| w_disk := d; w_journal := j; w_events := ev |} = (c', w', Ok x)).
+Proof. exact beyond_end_same_events. Qed.
+
 Print Assumptions C13_append_events.
 Print Assumptions C13_apply_events.
 Print Assumptions C13_get_events.
@@ -296,3 +346,6 @@ Print Assumptions C13_source_events_after_last_storage_operation.
 Print Assumptions C13_apply_any_accepted.
 Print Assumptions C13_any_history_avail.
 Print Assumptions AnyProofCorEx.sc_any_history_applies.
+Print Assumptions C13_failed_call_emits_nothing.
+Print Assumptions C13_beyond_end_same_events.
+Print Assumptions FaultReplicaEx.toy_append_fault_events.
